@@ -362,3 +362,1387 @@ def sid_cookie_rule(A, rule):
                     key='cookie-name-skip', detail=v.describe())
     A.check(ok_name and ok_attr, rule + '.cookie', 'cookie rendering recognised', A.site(fi),
             key='cookie-shape')
+
+
+# ---------------------------------------------------------------------------------------
+# handle_request: admission chain
+# ---------------------------------------------------------------------------------------
+REQ_DEFS = {
+    'method': ["environ['REQUEST_METHOD']"],
+    'query': ["urllib.parse.parse_qs(environ.get('QUERY_STRING', ''))"],
+    'transport': ["query.get('transport', ['polling'])[0]"],
+    'sid': ["query['sid'][0] if 'sid' in query else None", "query.get('sid', [None])[0]"],
+    'upgrade_header': ["environ.get('HTTP_UPGRADE').lower() if 'HTTP_UPGRADE' in environ else None"],
+    'origin': ["environ.get('HTTP_ORIGIN')"],
+    'allowed_origins': ['self._cors_allowed_origins(environ)'],
+    'socket': ['self._get_socket(sid)'],
+    'packets': ['socket.handle_get_request(environ, start_response)',
+                'socket.handle_get_request(environ)'],
+}
+SINKS = {
+    'connect': 'self._handle_connect(___)',
+    'get': 'socket.handle_get_request(___)',
+    'post': 'socket.handle_post_request(___)',
+}
+
+
+def request_paths(A, fl, cache={}):
+    key = (id(A), fl['name'])
+    if key in cache:
+        return cache[key]
+    fi = A.func(fl['server'] + '.handle_request')
+    srv = A.model.cls(fl['server'])
+
+    def opaque(st, f):
+        return isinstance(st, ast.If) and 'self.http_compression' in ast.unparse(st.test)
+    keep = set(REQ_DEFS) | {'environ', 'r', 'translate_request'}
+    en = A.enum(opaque=opaque, keep=keep, max_paths=150000)
+    ps = [p for p in A.paths(en, fi, srv) if p.outcome != 'cut']
+    if len(cache) > 4:
+        cache.clear()
+    cache[key] = (fi, srv, ps)
+    return cache[key]
+
+
+def _origin_ok(ga):
+    return ('self.cors_allowed_origins == []', True) in ga or ('origin', False) in ga or \
+        ('allowed_origins is None', True) in ga or ('origin in allowed_origins', True) in ga
+
+
+def _first(v, pred):
+    for i, e in enumerate(v.ev):
+        if pred(e):
+            return i
+    return None
+
+
+def admission_rules(A, fl, rule, parts=('defs', 'sinks', 'inert', 'origin', 'responses')):
+    fi, srv, ps = request_paths(A, fl)
+    site = A.site(fi)
+    name = fl['name']
+    # ---- definitions of the request attributes
+    if 'defs' in parts:
+        seen = {}
+        for p in ps:
+            for e in p.events:
+                if e.kind == 'bind' and e.depth == 0:
+                    seen.setdefault(txt(e.target), {})[txt(e.expr)] = e
+        for nm, defs in sorted(seen.items()):
+            if nm in REQ_DEFS:
+                for d, e in defs.items():
+                    A.check(d in REQ_DEFS[nm], rule + '.request-attrs',
+                            '%s: request attribute %s is derived as %s' % (name, nm, REQ_DEFS[nm][0]),
+                            A.site(fi, e.node), key='%s-def-%s' % (name, nm), detail=d,
+                            behaviour='the admission chain tests something else than the '
+                                      'request it then serves')
+        for nm in ('method', 'query', 'transport', 'sid'):
+            A.check(nm in seen, rule + '.request-attrs', '%s: %s is extracted from the request'
+                    % (name, nm), site, key='%s-def-missing-%s' % (name, nm))
+    counts = {'connect': 0, 'get': 0, 'post': 0, 'options': 0, '405': 0, 'refused': 0,
+              'origin-refused': 0}
+    for p in ps:
+        v = PV(p, depth=0)
+        ga = set(v.guard_atoms())
+        sink = None
+        si = None
+        for k, pat in SINKS.items():
+            c = v.calls(pat, depth=0)
+            if c:
+                sink, si = k, c[0][0]
+                break
+        gi_before = None
+        if si is not None:
+            ga_before = set(atom(e.expr, e.pol) for e in v.ev[:si] if e.kind == 'guard')
+        rbinds = [(i, txt(e.expr)) for i, e in enumerate(v.ev) if e.kind == 'bind' and
+                  txt(e.target) == 'r']
+        # ---- origin gate first (C13)
+        if 'origin' in parts:
+            qi = _first(v, lambda e: (e.kind == 'bind' and txt(e.target) in
+                                      ('query', 'method', 'sid', 'transport')) or
+                        (e.kind == 'call' and ('self.sockets' in txt(e.expr) or
+                                               '_get_socket' in txt(e.expr))) or
+                        (e.kind == 'guard' and 'self.sockets' in txt(e.expr)))
+            refused = ('allowed_origins is None', False) in ga and \
+                ('origin in allowed_origins', False) in ga
+            if refused:
+                counts['origin-refused'] += 1
+                eff = [x for i, x in v.effects(0)]
+                okeff = all(any(x.startswith(a) for a in (
+                    'environ.get(', 'self._cors_allowed_origins(', 'self._log_error_once(',
+                    'self._bad_request(', 'start_response(', 'self._make_response(',
+                    'translate_request(', 'asyncio.iscoroutinefunction(',
+                    "self._async['translate_request']")) for x in eff)
+                resp = [x for x in eff if x.startswith('self._bad_request(')]
+                A.check(qi is None and okeff and resp and p.outcome == 'return' and
+                        sink is None, rule + '.gate-first',
+                        '%s: a request with a disallowed Origin is answered 400 at once: no '
+                        'query parsing, no session lookup, no handler' % name, site,
+                        key='%s-origin-refusal' % name, detail=v.describe(40),
+                        behaviour='a cross-origin request is processed before (or in spite of) '
+                                  'the origin check')
+            else:
+                if qi is not None:
+                    gi = [i for i, e in enumerate(v.ev[:qi]) if e.kind == 'guard' and
+                          atom(e.expr, e.pol) in (
+                              ('self.cors_allowed_origins == []', True), ('origin', False),
+                              ('allowed_origins is None', True),
+                              ('origin in allowed_origins', True))]
+                    A.check(bool(gi), rule + '.gate-first',
+                            '%s: the origin check is decided before the request is looked at '
+                            '(query, session table)' % name, A.site(fi, v.node(qi)),
+                            key='%s-origin-gate-order' % name, detail=v.describe(40),
+                            behaviour='requests with a foreign Origin reach session lookup / '
+                                      'handlers: the origin policy can be bypassed')
+        if 'sinks' not in parts and 'inert' not in parts and 'responses' not in parts:
+            continue
+        if sink is not None:
+            counts[sink] += 1
+            need = [('transport in self.transports', True)]
+            alts = []
+            if sink == 'connect':
+                need += [("method == 'GET'", True), ('sid is None', True),
+                         ("query.get('EIO') == ['4']", True)]
+                alts = [[("transport == 'polling'", True)],
+                        [("transport == upgrade_header == 'websocket'", True)]]
+            elif sink == 'get':
+                need += [("method == 'GET'", True), ('sid is None', False),
+                         ('sid in self.sockets', True)]
+                alts = [[('self.transport(sid) == transport', True)],
+                        [('transport == upgrade_header', True)]]
+            elif sink == 'post':
+                need += [("method == 'POST'", True), ('sid is None', False),
+                         ('sid in self.sockets', True)]
+            if 'sinks' in parts:
+                miss = [g for g in need if g not in ga_before]
+                okalt = not alts or any(all(g in ga_before for g in alt) for alt in alts)
+                A.check(not miss and okalt and _origin_ok(ga_before), rule + '.admission',
+                        '%s: a request is %s only after every admission test passed (%s)'
+                        % (name, {'connect': 'opened', 'get': 'served as poll/upgrade',
+                                  'post': 'accepted as POST'}[sink],
+                           ', '.join(a for a, _ in need) + (' and the transport/upgrade match'
+                                                            if alts else '')),
+                        A.site(fi, v.node(si)), key='%s-admit-%s' % (name, sink),
+                        detail=['missing: %s' % miss if miss else 'transport/upgrade alternative '
+                                'not established'] + v.describe(60),
+                        behaviour='a request that should be refused with 400 is let in')
+                # JSONP index
+                jbad = [i for i, e in enumerate(v.ev[:si]) if e.kind == 'handler' and
+                        'ValueError' in (e.cls or '')]
+                A.check(("'j' in query", False) in ga_before or not jbad, rule + '.jsonp-index',
+                        '%s: with a JSONP request only a numeric index is admitted' % name,
+                        A.site(fi, v.node(si)), key='%s-admit-jsonp' % name, detail=v.describe(60),
+                        behaviour='a non-numeric JSONP index is admitted')
+                if sink in ('get', 'post'):
+                    look = [i for i, e in enumerate(v.ev[:si]) if e.kind == 'bind' and
+                            txt(e.target) == 'socket']
+                    A.check(bool(look), rule + '.live-session',
+                            '%s: the session is looked up with _get_socket(sid) (which refuses '
+                            'closed sessions) before it is used' % name, A.site(fi, v.node(si)),
+                            key='%s-lookup-%s' % (name, sink), detail=v.describe(60),
+                            behaviour='a request naming a closed-but-not-reaped session is '
+                                      'served')
+            continue
+        # ---- no sink: refusal / OPTIONS / 405
+        if not rbinds and p.outcome == 'return':
+            # early responses (origin / transport / version) return directly
+            pass
+        final = rbinds[-1][1] if rbinds else None
+        eff = [x for i, x in v.effects(0)]
+        early = [x for x in eff if x.startswith('self._bad_request(')]
+        if final is not None and final == 'self._ok()':
+            counts['options'] += 1
+            if 'sinks' in parts:
+                A.check(("method == 'OPTIONS'", True) in ga, rule + '.methods',
+                        '%s: the bare 200 OK is the answer to OPTIONS only' % name, site,
+                        key='%s-options' % name, detail=v.describe(40))
+            continue
+        if final is not None and final == 'self._method_not_found()':
+            counts['405'] += 1
+            if 'sinks' in parts:
+                A.check(all((("method == '%s'" % m_), False) in ga
+                            for m_ in ('GET', 'POST', 'OPTIONS')), rule + '.methods',
+                        '%s: 405 is the answer to every method other than GET, POST, OPTIONS'
+                        % name, site, key='%s-405' % name, detail=v.describe(40),
+                        behaviour='a supported method is refused / an unsupported one accepted')
+            continue
+        if p.outcome == 'raise':
+            if p.cls == 'KeyError' and 'sinks' in parts:
+                ex = [i for i, e in enumerate(v.ev) if e.kind == 'exc' and e.depth == 0]
+                node = v.ev[ex[-1]].node if ex else None
+                src = [txt(e.expr) for e in v.ev if e.kind == 'call' and e.node is node
+                       and e.depth == 0]
+                looked = any(e.kind == 'bind' and txt(e.target) == 'socket' for e in v.ev[:ex[-1]]) \
+                    if ex else False
+                if any('_get_socket(' in x for x in src) or \
+                        (any(x.startswith('self.transport(') for x in src) and not looked):
+                    A.violated(rule + '.lookup-escape',
+                               '%s: a session lookup that fails (unknown or closed session) is '
+                               'answered 400, it does not raise out of handle_request' % name,
+                               A.site(fi, node), key='%s-lookup-escape' % name,
+                               detail=v.describe(50),
+                               behaviour='a request naming a closed-but-not-reaped session makes '
+                                         'handle_request raise KeyError: no response at all')
+            continue
+        counts['refused'] += 1
+        if 'inert' in parts:
+            isref = (final is not None and final.startswith('self._bad_request(')) or \
+                (final is None and early)
+            A.check(isref, rule + '.refusal', '%s: a request that is not admitted is answered 400'
+                    % name, site, key='%s-refusal-status' % name,
+                    detail=['final r: %s' % final] + v.describe(40),
+                    behaviour='a refused request gets another answer than 400')
+            bad = [x for x in eff if any(k in x for k in (
+                '_trigger_event(', '.close(', '.disconnect(', '.poll(', '.send(', '.receive(',
+                '.put(', 'self.sockets.pop(', '_handle_connect('))]
+            wr = [e for e in v.ev if e.kind in ('write', 'del') and 'self.sockets' in txt(e.target)]
+            A.check(not bad and not wr, rule + '.refusal-inert',
+                    '%s: a refused request has no effect on any session (no event, no close, no '
+                    'queue access, no table change)' % name, site, key='%s-refusal-effects' % name,
+                    detail=['effects: %s' % bad, 'writes: %s' % [txt(e.target) for e in wr]]
+                    + v.describe(40),
+                    behaviour='a refused request creates, closes or drains a session')
+    if 'sinks' in parts:
+        for k in ('connect', 'get', 'post', 'options', '405', 'refused'):
+            A.floor(rule, '%s handle_request %s paths' % (name, k), counts[k], 1)
+    if 'origin' in parts:
+        A.floor(rule, '%s origin-refused paths' % name, counts['origin-refused'], 1)
+    A.sample({'rule': rule, 'flavour': name, 'paths': len(ps), 'by_outcome': counts})
+
+
+# ---------------------------------------------------------------------------------------
+# responses: constructors, one response per path, error routing, compression, JSONP
+# ---------------------------------------------------------------------------------------
+import re
+STATUS_RE = re.compile(r'^(200|400|401|405) [A-Z][A-Z ]*$')
+EXPECT_STATUS = {'_ok': '200 OK', '_bad_request': '400 BAD REQUEST',
+                 '_method_not_found': '405 METHOD NOT FOUND', '_unauthorized': '401 UNAUTHORIZED'}
+
+
+def flatten_list_concat(e):
+    e = unawait(e)
+    if isinstance(e, ast.BinOp) and isinstance(e.op, ast.Add):
+        a, b = flatten_list_concat(e.left), flatten_list_concat(e.right)
+        if a is None or b is None:
+            return None
+        return a + b
+    if isinstance(e, ast.List):
+        return list(e.elts)
+    return None
+
+
+def _bytes_kind(e):
+    e = unawait(e)
+    if isinstance(e, ast.Constant) and isinstance(e.value, bytes):
+        return True
+    return isinstance(e, ast.Call) and isinstance(e.func, ast.Attribute) and \
+        e.func.attr == 'encode' and len(e.args) <= 1 and \
+        (not e.args or match("'utf-8'", e.args[0]) is not None)
+
+
+def constructor_rules(A, rule, fresh_rule=None):
+    srv = A.model.cls('server.Server')
+    for name, status in EXPECT_STATUS.items():
+        fi = A.func('base_server.BaseServer.' + name)
+        ps = [p for p in A.paths(A.enum(follow_handlers=False), fi, srv) if p.outcome != 'cut']
+        n = 0
+        for p in ps:
+            if p.outcome != 'return':
+                continue
+            n += 1
+            d = unawait(p.value)
+            okd = isinstance(d, ast.Dict) and all(isinstance(k, ast.Constant) for k in d.keys)
+            fields = {k.value: v for k, v in zip(d.keys, d.values)} if okd else {}
+            A.check(okd and set(fields) == {'status', 'headers', 'response'}, rule + '.shape',
+                    '%s returns a dict with status, headers, response' % name, A.site(fi),
+                    key='ctor-shape-%s' % name, detail=txt(d))
+            if not okd or set(fields) != {'status', 'headers', 'response'}:
+                continue
+            st = fields['status']
+            A.check(isinstance(st, ast.Constant) and isinstance(st.value, str) and
+                    STATUS_RE.match(st.value) and st.value == status, rule + '.status',
+                    '%s answers "%s"' % (name, status), A.site(fi), key='ctor-status-%s' % name,
+                    detail=txt(st), behaviour='a response with a status outside 200/400/401/405 '
+                                              'or a malformed status line')
+            hs = flatten_list_concat(fields['headers'])
+            base_ok = hs is not None
+            if hs is None and name == '_ok':
+                # headers parameter (a list made by the caller) extended by a list display
+                hh = unawait(fields['headers'])
+                if isinstance(hh, ast.BinOp) and isinstance(hh.op, ast.Add) and \
+                        txt(hh.left) in ('headers', '[]') and isinstance(hh.right, ast.List):
+                    hs = list(hh.right.elts)
+                    base_ok = True
+            A.check(base_ok, (fresh_rule or rule) + '.fresh-headers',
+                    '%s builds a fresh header list for every response (never a shared object)'
+                    % name, A.site(fi), key='ctor-headers-shared-%s' % name,
+                    detail=txt(fields['headers']),
+                    behaviour='the in-place "Content-Encoding" append of handle_request leaks '
+                              'into later responses: an uncompressed body is declared compressed')
+            if hs is not None:
+                okh = all(isinstance(h, ast.Tuple) and len(h.elts) == 2 and
+                          all(isinstance(x, ast.Constant) and isinstance(x.value, str)
+                              for x in h.elts) for h in hs)
+                A.check(okh and any(h.elts[0].value == 'Content-Type' for h in hs),
+                        rule + '.headers', '%s: headers are (str, str) pairs including '
+                        'Content-Type' % name, A.site(fi), key='ctor-headers-%s' % name,
+                        detail=[txt(h) for h in hs])
+            A.check(_bytes_kind(fields['response']), rule + '.body',
+                    '%s: the body is bytes' % name, A.site(fi), key='ctor-body-%s' % name,
+                    detail=txt(fields['response']),
+                    behaviour='the gateway receives a str body')
+        A.floor(rule, '%s returning paths' % name, n, 1)
+    # no other status literal in the server modules
+    for mod in ('server', 'async_server', 'base_server'):
+        for n_ in ast.walk(A.model.module(mod).tree):
+            if isinstance(n_, ast.Constant) and isinstance(n_.value, str) and \
+                    re.match(r'^\d\d\d [A-Za-z]', n_.value):
+                A.check(n_.value in EXPECT_STATUS.values(), rule + '.status',
+                        'status literal %r is one of the four allowed' % n_.value,
+                        'src/engineio/%s.py:%d' % (mod, n_.lineno), key='status-literal',
+                        detail=n_.value)
+
+
+def response_rules(A, fl, rule, parts=('one-response', 'errors', 'reap')):
+    fi, srv, ps = request_paths(A, fl)
+    name = fl['name']
+    site = A.site(fi)
+    n_ret = n_err = n_reap = 0
+    for p in ps:
+        v = PV(p, depth=0)
+        ga = set(v.guard_atoms())
+        if p.outcome == 'return' and 'one-response' in parts:
+            n_ret += 1
+            if fl['name'] == 'threaded':
+                resp = v.calls('start_response(___)')
+                passthrough = ('isinstance(r, dict)', False) in ga
+                if passthrough:
+                    A.check(not resp and txt(p.value) == 'r', rule + '.one-response',
+                            'threaded: a non-dict result (the WebSocket handler\'s) is returned '
+                            'as it is, without a second response', site,
+                            key='threaded-passthrough', detail=v.describe(40))
+                else:
+                    ok = len(resp) == 1
+                    if ok:
+                        c = unawait(v.ev[resp[0][0]].expr)
+                        ok = len(c.args) == 2 and txt(c.args[0]) == "r['status']" and \
+                            txt(c.args[1]).startswith("r['headers']")
+                        ok = ok and txt(p.value) == "[r['response']]"
+                    A.check(ok, rule + '.one-response', 'threaded: every request path calls '
+                            'start_response exactly once with the status and header list and '
+                            'returns [body]', site, key='threaded-one-response',
+                            detail=v.describe(40),
+                            behaviour='no response, two responses or a malformed WSGI return '
+                                      'value')
+            else:
+                resp = v.calls('self._make_response(___)')
+                passthrough = ('isinstance(r, dict)', False) in ga
+                if passthrough:
+                    A.check(not resp and txt(p.value) == 'r', rule + '.one-response',
+                            'asyncio: a non-dict result is returned as it is', site,
+                            key='asyncio-passthrough', detail=v.describe(40))
+                else:
+                    ok = len(resp) == 1 and txt(p.value).startswith('self._make_response(')
+                    if ok:
+                        c = unawait(v.ev[resp[0][0]].expr)
+                        ok = len(c.args) == 2 and txt(c.args[1]) == 'environ' and \
+                            (txt(c.args[0]) == 'r' or txt(c.args[0]).startswith('self._bad_request('))
+                    A.check(ok, rule + '.one-response', 'asyncio: every request path produces '
+                            'exactly one response through _make_response(r, environ)', site,
+                            key='asyncio-one-response', detail=v.describe(40),
+                            behaviour='no response or two responses for one request')
+        # protocol errors from the socket handlers
+        if 'errors' in parts:
+            hidx = [i for i, e in enumerate(v.ev) if e.kind == 'handler' and e.cls == 'EngineIOError']
+            for hi in hidx:
+                if any(e.kind == 'exc' for e in v.ev[hi:]):
+                    continue    # a further (summary-based) exception inside the handler
+                n_err += 1
+                nxt = len(v.ev)
+                cl = [(i, c) for i, c in v.calls('socket.close(___)') if i > hi]
+                okc = True
+                firstg = next((atom(e.expr, e.pol) for e in v.ev[hi:] if e.kind == 'guard' and
+                               atom(e.expr, e.pol)[0] == 'sid in self.sockets'), None)
+                if firstg == ('sid in self.sockets', True):
+                    okc = len(cl) >= 1 and match(
+                        'socket.close(wait=False, reason=self.reason.SERVER_DISCONNECT, '
+                        '_strict=True)', v.ev[cl[0][0]].expr) is not None
+                    pops = [i for i, _ in v.calls('self.sockets.pop(sid, None)') if i > hi] + \
+                        [i for i, e in enumerate(v.ev) if e.kind == 'del' and i > hi and
+                         txt(e.target) == 'self.sockets[sid]']
+                    okc = okc and bool(pops)
+                rb = [x for i, x in [(i, txt(e.expr)) for i, e in enumerate(v.ev)
+                                     if e.kind == 'bind' and txt(e.target) == 'r'] if i > hi]
+                A.check(okc and rb and rb[0] == 'self._bad_request()', rule + '.protocol-error',
+                        '%s: a protocol error (oversize / unknown packet / empty poll) fails the '
+                        'request with 400 and ends the session without waiting' % name,
+                        A.site(fi, v.node(hi)), key='%s-protocol-error' % name,
+                        detail=v.describe(70),
+                        behaviour='the worker blocks in close(wait=True)/queue.join(), or the '
+                                  'session survives a protocol error')
+                dis = [i for i, _ in v.calls('self.disconnect(___)') if i > hi]
+                A.check(not dis, rule + '.no-block', '%s: the request error branch does not call '
+                        'the waiting disconnect()' % name, A.site(fi, v.node(hi)),
+                        key='%s-error-branch-disconnect' % name, detail=v.describe(70),
+                        behaviour='the request never completes: disconnect() waits in '
+                                  'queue.join() for a poll that cannot come')
+        if 'reap' in parts:
+            g = ('self.sockets[sid].closed', True) in ga and ('sid in self.sockets', True) in ga
+            if g and any(c for c in v.calls('socket.handle_get_request(___)')):
+                n_reap += 1
+                dels = [e for e in v.ev if e.kind == 'del' and txt(e.target) == 'self.sockets[sid]']
+                A.check(bool(dels), rule + '.reap-after-get', '%s: a session found closed after '
+                        'its GET is removed from the table' % name, site,
+                        key='%s-reap-after-get' % name, detail=v.describe(70),
+                        behaviour='closed sessions stay in the table')
+    if 'one-response' in parts:
+        A.floor(rule, '%s returning handle_request paths' % name, n_ret, 20)
+    if 'errors' in parts:
+        A.floor(rule, '%s protocol-error branches' % name, n_err, 2)
+    if 'reap' in parts:
+        A.floor(rule, '%s reap-after-get paths' % name, n_reap, 1)
+
+
+def _slice_func(A, fi, stmts, name, params):
+    """FuncInfo for a synthetic function whose body is a slice of fi (same module / class)."""
+    from sa.model import FuncInfo
+    args = ast.arguments(posonlyargs=[], args=[ast.arg(p) for p in params], vararg=None,
+                         kwonlyargs=[], kw_defaults=[], kwarg=None, defaults=[])
+    node = ast.FunctionDef(name=name, args=args, body=list(stmts), decorator_list=[],
+                           returns=None, type_comment=None, type_params=[])
+    node.lineno = stmts[0].lineno
+    ast.fix_missing_locations(node)
+    node.lineno = stmts[0].lineno
+    f = FuncInfo(fi.name + '$' + name, node, fi.module, cls=fi.cls)
+    f.qualname = fi.qualname + '$' + name
+    return f
+
+
+def compression_rules(A, fl, rule):
+    fi = A.func(fl['server'] + '.handle_request')
+    srv = A.model.cls(fl['server'])
+    name = fl['name']
+    blocks = [st for st in fi.node.body if isinstance(st, ast.If) and
+              'self.http_compression' in ast.unparse(st.test)]
+    if len(blocks) != 1:
+        raise AnalysisError('%s: compression block of %s not found' % (rule, fi.qualname))
+    sl = _slice_func(A, fi, [blocks[0], ast.Return(ast.Name('r', ast.Load()))], 'compress',
+                     ['self', 'r', 'environ'])
+    ps = [p for p in A.paths(A.enum(loop_bound=2, follow_handlers=False), sl, srv)
+          if p.outcome != 'cut']
+    sym = {"len(r['response'])": ('L', 0), 'self.compression_threshold': ('T', 0)}
+    enc_t = "[e.split(';')[0].strip() for e in environ.get('HTTP_ACCEPT_ENCODING', '').split(',')]"
+    n_c = 0
+    for p in ps:
+        v = PV(p)
+        wr = [(i, val) for i, val in v.writes("r['response']")]
+        wh = [(i, val) for i, val in v.writes("r['headers']")]
+        A.check(len(wr) == len(wh) and len(wr) <= 1, rule + '.declared<=>compressed',
+                '%s: the body is compressed at most once and exactly when Content-Encoding is '
+                'declared' % name, A.site(fi, blocks[0]), key='%s-compress-pairing' % name,
+                detail=v.describe(40),
+                behaviour='a compressed body without Content-Encoding (or the reverse), or a '
+                          'body compressed twice')
+        if len(wr) != 1 or len(wh) != 1:
+            continue
+        n_c += 1
+        ga = set(v.guard_atoms())
+        m1 = match("getattr(self, '_' + _elem(%s, _k))(r['response'])" % enc_t,
+                   ast.parse(wr[0][1], mode='eval').body)
+        m2 = match("r['headers'] + [('Content-Encoding', _elem(%s, _k2))]" % enc_t,
+                   ast.parse(wh[0][1], mode='eval').body)
+        A.check(m1 is not None and m2 is not None and txt(m1['k']) == txt(m2['k2']),
+                rule + '.declared<=>compressed', '%s: the declared encoding names the function '
+                'that compressed the body, and it is one the request offered' % name,
+                A.site(fi, v.node(wr[0][0])), key='%s-compress-label' % name,
+                detail=[wr[0][1], wh[0][1]],
+                behaviour='the body is gzip but declared deflate (or an encoding the client did '
+                          'not offer is used)')
+        k = txt(m1['k']) if m1 else '0'
+        need = [('self.http_compression', True),
+                ('_elem(%s, %s) in self.compression_methods' % (enc_t, k), True)]
+        forms = [int_ordering(v.ev[i].expr, v.ev[i].pol, sym) for i in v.guards()]
+        forms = [f for f in forms if f is not None and 'L' in f[0]]
+        A.check(all(g in ga for g in need) and forms == [({'L': 1, 'T': -1}, 0)],
+                rule + '.conditions', '%s: compression happens only if enabled, the body has '
+                'reached the threshold (len >= threshold) and the offered encoding is supported'
+                % name, A.site(fi, blocks[0]), key='%s-compress-conditions' % name,
+                detail=['threshold forms: %s' % forms] + v.describe(40),
+                behaviour='bodies below the threshold are compressed / compression ignores '
+                          'http_compression=False')
+        later = [i for i in v.kinds('iter') if i > wr[0][0] and v.ev[i].pol]
+        A.check(not later, rule + '.declared<=>compressed', '%s: the selection loop stops after '
+                'the first supported encoding' % name, A.site(fi, blocks[0]),
+                key='%s-compress-break' % name, detail=v.describe(40),
+                behaviour='double compression')
+    A.floor(rule, '%s compressing paths' % name, n_c, 2)
+
+
+def codec_registry_rules(A, rule):
+    bs = A.model.cls('base_server.BaseServer')
+    v, _ = A.model.class_attr(bs, 'compression_methods')
+    methods = ast.literal_eval(v) if v is not None else None
+    A.check(methods == ['gzip', 'deflate'], rule + '.registry',
+            'the supported content codings are gzip and deflate', 'src/engineio/base_server.py',
+            key='compression-methods', detail=repr(methods))
+    for m_ in methods or []:
+        A.check(A.model.find_method(bs, '_' + m_) is not None, rule + '.registry',
+                'a compressor _%s exists for the advertised coding' % m_,
+                'src/engineio/base_server.py', key='compressor-missing-%s' % m_)
+    gz = A.func('base_server.BaseServer._gzip')
+    ps = [p for p in A.paths(A.enum(follow_handlers=False), gz, bs) if p.outcome == 'return']
+    for p in ps:
+        pv = PV(p)
+        ctor = pv.calls('gzip.GzipFile(___)')
+        ok = len(ctor) == 1
+        if ok:
+            c = unawait(pv.ev[ctor[0][0]].expr)
+            kw = {k.arg: k.value for k in c.keywords}
+            ok = txt(kw.get('fileobj')) == 'io.BytesIO()' and \
+                txt(kw.get('mode')) in ("'w'", "'wb'")
+        wr = pv.calls('_g.write(response)')
+        ok = ok and len(wr) == 1 and txt(p.value) == 'io.BytesIO().getvalue()'
+        A.check(ok, rule + '.gzip', '_gzip writes the whole body through GzipFile(mode=w) into a '
+                'buffer and returns the buffer after the with-block closed the stream',
+                A.site(gz), key='gzip-shape', detail=pv.describe(),
+                behaviour='a truncated or non-gzip body is declared gzip')
+    A.floor(rule, '_gzip paths', len(ps), 1)
+    df = A.func('base_server.BaseServer._deflate')
+    for p in [p for p in A.paths(A.enum(follow_handlers=False), df, bs) if p.outcome == 'return']:
+        c = unawait(p.value)
+        ok = isinstance(c, ast.Call) and txt(c.func) == 'zlib.compress' and c.args and \
+            txt(c.args[0]) == 'response' and not any(k.arg == 'wbits' for k in c.keywords)
+        A.check(ok, rule + '.deflate', "_deflate is zlib.compress (zlib container - HTTP's "
+                '"deflate")', A.site(df), key='deflate-shape', detail=txt(c),
+                behaviour='raw deflate without zlib header is declared "deflate"')
+
+
+def jsonp_rule(A, rule):
+    from sa.terms import flatten_concat, merge_consts
+    enc = A.func('payload.Payload.encode')
+    en = A.enum(assume=assume_from({'jsonp_index': Kind('int', truthy=True)}), loop_bound=1)
+    ps = [p for p in A.paths(en, enc) if p.outcome == 'return']
+    n = 0
+    for p in ps:
+        parts = merge_consts(flatten_concat(p.value))
+        n += 1
+        texts = [txt(x) for x in parts]
+        ok = len(parts) == 5 and texts[0] == "'___eio['" and texts[1] == 'str(jsonp_index)' and \
+            texts[2] == "']('" and texts[4] == "');'"
+        esc = None
+        if ok:
+            c = unawait(parts[3])
+            esc = c
+            ok = isinstance(c, ast.Call) and txt(c.func) in ('json.dumps', 'self.json.dumps') \
+                and len(c.args) == 1
+            if ok:
+                kw = {k.arg: k.value for k in c.keywords}
+                ok = ('ensure_ascii' not in kw or match('True', kw['ensure_ascii']) is not None) \
+                    and not (set(kw) - {'ensure_ascii'})
+        A.check(ok, rule + '.jsonp', 'a JSONP body is ___eio[<index>](<payload as a complete '
+                'JavaScript string literal>); - the payload text is escaped by json.dumps with '
+                'ensure_ascii (quotes, backslashes, line terminators, U+2028/2029)',
+                A.site(enc), key='jsonp-escaper', detail=texts,
+                behaviour='payloads with quotes/backslashes/line terminators/U+2028 produce a '
+                          'different or invalid script')
+        if ok and esc is not None:
+            inner = merge_consts(flatten_concat(esc.args[0]))
+            A.check(all('.encode(b64=True)' in txt(x) or txt(x) == repr('\x1e') for x in inner),
+                    rule + '.jsonp', 'the escaped text is exactly the encoded payload',
+                    A.site(enc), key='jsonp-inner', detail=[txt(x) for x in inner])
+    A.floor(rule, 'JSONP encode paths', n, 1)
+
+
+# ---------------------------------------------------------------------------------------
+# CORS: allowed-origin computation and response headers
+# ---------------------------------------------------------------------------------------
+def cors_rules(A, rule):
+    bs = A.model.cls('base_server.BaseServer')
+    fi = A.func('base_server.BaseServer._cors_allowed_origins')
+    cfgs = [('None (default: same origin)', Const(None), 'default'),
+            ("'*'", Const('*'), 'none'),
+            ('a single origin string', Kind('str', truthy=True, empty=False, neq=('*',)),
+             'wrapped'),
+            ('a list of origins', Kind('list'), 'self'),
+            ('a predicate', Kind('other', truthy=True), 'predicate')]
+    for label, val, want in cfgs:
+        A.counters['cases'] += 1
+        asm = {'self.cors_allowed_origins': val}
+        if isinstance(val, Kind) and val.k == 'other':
+            asm['callable(self.cors_allowed_origins)'] = Const(True)
+        ps = [p for p in A.paths(A.enum(assume=assume_from(asm), follow_handlers=False), fi, bs)
+              if p.outcome == 'return']
+        A.floor(rule, '_cors_allowed_origins paths for %s' % label, len(ps), 1)
+        for p in ps:
+            v = PV(p)
+            rv = txt(p.value)
+            what = 'cors_allowed_origins = %s' % label
+            if want == 'none':
+                ok = rv == 'None'
+            elif want == 'wrapped':
+                ok = rv == '[self.cors_allowed_origins]'
+            elif want == 'self':
+                ok = rv == 'self.cors_allowed_origins'
+            elif want == 'predicate':
+                ok = rv in ("[environ.get('HTTP_ORIGIN')] if self.cors_allowed_origins("
+                            "environ.get('HTTP_ORIGIN')) else []",
+                            "[environ.get('HTTP_ORIGIN')]", '[]')
+            else:
+                ok = rv == '[]'
+                apps = [txt(unawait(v.ev[i].expr).args[0]) for i, _ in v.calls('[].append(_x)')]
+                exp1 = "'{scheme}://{host}'.format(scheme=environ['wsgi.url_scheme'], " \
+                       "host=environ['HTTP_HOST'])"
+                exp2 = "'{scheme}://{host}'.format(scheme=environ.get('HTTP_X_FORWARDED_PROTO', " \
+                       "environ['wsgi.url_scheme']).split(',')[0].strip(), host=environ.get(" \
+                       "'HTTP_X_FORWARDED_HOST', environ['HTTP_HOST']).split(',')[0].strip())"
+                ok = ok and all(a in (exp1, exp2) for a in apps) and \
+                    (not apps or apps[0] == exp1)
+                if not ok:
+                    rv = rv + ' with ' + repr(apps)
+            A.check(ok, rule + '.allowed-set', '%s: the allowed set is %s' % (what, {
+                'none': 'None (everything)', 'wrapped': 'a one-element list (exact match, never a '
+                'substring test)', 'self': 'the configured list',
+                'predicate': 'the request origin iff the predicate accepts it',
+                'default': "exactly scheme://host of the request (and of X-Forwarded-*)"}[want]),
+                A.site(fi), key='cors-allowed-%s' % want, detail=['returns ' + rv] + v.describe(30),
+                behaviour='"origin in allowed" becomes a substring test / foreign origins are '
+                          'allowed')
+    # _cors_headers
+    ch = A.func('base_server.BaseServer._cors_headers')
+    ps = [p for p in A.paths(A.enum(follow_handlers=False), ch, bs) if p.outcome == 'return']
+    A.floor(rule, '_cors_headers paths', len(ps), 8)
+    AO = 'self._cors_allowed_origins(environ)'
+    for p in ps:
+        v = PV(p)
+        ga = set(v.guard_atoms())
+        if ('self.cors_allowed_origins == []', True) in ga:
+            A.check(txt(p.value) == '[]' and not v.effects(0), rule + '.disabled',
+                    'with an empty allow-list no CORS header is emitted', A.site(ch),
+                    key='cors-disabled', detail=v.describe(),
+                    behaviour='CORS headers are emitted although CORS handling is disabled')
+            continue
+        hs = flatten_list_concat(p.value)
+        if hs is None:
+            A.undecided(rule + '.headers', 'header list recognised', A.site(ch), txt(p.value))
+            continue
+        names = {}
+        for h in hs:
+            if isinstance(h, ast.Tuple) and len(h.elts) == 2 and isinstance(h.elts[0], ast.Constant):
+                names[h.elts[0].value] = txt(h.elts[1])
+        acao = names.get('Access-Control-Allow-Origin')
+        allowed = ("'HTTP_ORIGIN' in environ", True) in ga and (
+            (AO + ' is None', True) in ga or ("environ['HTTP_ORIGIN'] in " + AO, True) in ga)
+        if acao is not None:
+            A.check(allowed and acao == "environ['HTTP_ORIGIN']", rule + '.never-over-grant',
+                    "Access-Control-Allow-Origin is emitted only with the request's own Origin "
+                    'and only if that origin is allowed', A.site(ch), key='cors-acao',
+                    detail=['value ' + acao] + v.describe(),
+                    behaviour='a disallowed origin (or *) is granted access')
+        else:
+            A.check(not allowed, rule + '.grant', 'an allowed origin gets its '
+                    'Access-Control-Allow-Origin header', A.site(ch), key='cors-acao-missing',
+                    detail=v.describe())
+        cred = 'Access-Control-Allow-Credentials' in names
+        A.check(cred == (('self.cors_credentials', True) in ga) and
+                (not cred or names['Access-Control-Allow-Credentials'] == "'true'"),
+                rule + '.credentials', 'Allow-Credentials is emitted iff cors_credentials is '
+                'enabled', A.site(ch), key='cors-credentials', detail=v.describe(),
+                behaviour='credentials are allowed although disabled')
+        extra = set(names) - {'Access-Control-Allow-Origin', 'Access-Control-Allow-Credentials',
+                              'Access-Control-Allow-Methods', 'Access-Control-Allow-Headers'}
+        A.check(not extra, rule + '.headers', 'only the four CORS headers are produced',
+                A.site(ch), key='cors-extra', detail=sorted(extra))
+
+
+# ---------------------------------------------------------------------------------------
+# application-facing API and the session table
+# ---------------------------------------------------------------------------------------
+def api_rules(A, fl, rule):
+    P = pconsts(A)
+    srv = A.model.cls(fl['server'])
+    name = fl['name']
+    S = 'self._get_socket(sid)'
+    # send()
+    fi = A.func(fl['server'] + '.send')
+    for p in [p for p in A.paths(A.enum(follow_handlers=False), fi, srv) if p.outcome == 'return']:
+        v = PV(p)
+        c = v.calls('self.send_packet(sid, _p)')
+        ok = len(c) == 1
+        if ok:
+            pc = packet_ctor(A, fi, c[0][1]['p'])
+            ok = pc is not None and pc[0] == P['MESSAGE'] and pc[1] is not None and \
+                txt(pc[1]) == 'data' and pc[2] is None
+        A.check(ok, rule + '.send', '%s send(sid, data) queues one MESSAGE packet with the data '
+                'for that sid' % name, A.site(fi), key='%s-api-send' % name, detail=v.describe())
+    # send_packet()
+    fi = A.func(fl['server'] + '.send_packet')
+    ps = [p for p in A.paths(A.enum(), fi, srv) if p.outcome != 'cut']
+    n_ok = n_dead = 0
+    for p in ps:
+        v = PV(p)
+        sends = v.calls(S + '.send(pkt)')
+        allsends = v.calls('_x.send(___)')
+        if any(e.kind == 'handler' for e in v.ev):
+            n_dead += 1
+            A.check(not allsends and p.outcome == 'return' and
+                    not [x for i, x in v.effects(0) if 'logger' not in x and '_get_socket' not in x],
+                    rule + '.dead-id-noop', '%s send to an unknown / disconnected sid is a silent '
+                    'no-op' % name, A.site(fi), key='%s-send-dead' % name, detail=v.describe(),
+                    behaviour='send() to a dead id raises or reaches another session')
+        elif not any(e.kind == 'exc' for e in v.ev):
+            n_ok += 1
+            A.check(len(sends) == 1 and len(allsends) == 1, rule + '.own-session',
+                    '%s send_packet(sid, pkt) enqueues pkt on the session looked up from its own '
+                    'sid, once' % name, A.site(fi), key='%s-send-own' % name, detail=v.describe(),
+                    behaviour='a message is delivered to a session other than the addressed one')
+    A.floor(rule, '%s send_packet paths' % name, min(n_ok, n_dead), 1)
+    # session accessors
+    fi = A.func(fl['server'] + '.get_session')
+    for p in [p for p in A.paths(A.enum(), fi, srv) if p.outcome == 'return']:
+        A.check(txt(p.value) == S + '.session', rule + '.session', '%s get_session returns the '
+                'addressed session\'s own data' % name, A.site(fi), key='%s-get-session' % name,
+                detail=txt(p.value), behaviour='session data of another connection is returned')
+    A.check('KeyError' in A.resolver.raises_of(fi, srv), rule + '.dead-id-raises',
+            '%s get_session raises KeyError for a dead id' % name, A.site(fi),
+            key='%s-get-session-raise' % name)
+    fi = A.func(fl['server'] + '.save_session')
+    for p in [p for p in A.paths(A.enum(), fi, srv) if p.outcome == 'return']:
+        v = PV(p)
+        w = v.writes()
+        A.check(len(w) == 1 and txt(v.ev[w[0][0]].target) == S + '.session' and w[0][1] == 'session',
+                rule + '.session', "%s save_session stores into the addressed session only"
+                % name, A.site(fi), key='%s-save-session' % name, detail=v.describe())
+    A.check('KeyError' in A.resolver.raises_of(fi, srv), rule + '.dead-id-raises',
+            '%s save_session raises KeyError for a dead id' % name, A.site(fi),
+            key='%s-save-session-raise' % name)
+    fi = A.func('base_server.BaseServer.transport')
+    for p in [p for p in A.paths(A.enum(), fi, srv) if p.outcome == 'return']:
+        A.check(txt(p.value) == "'websocket' if %s.upgraded else 'polling'" % S,
+                rule + '.transport', '%s transport(sid) reports websocket iff the session is '
+                'upgraded' % name, A.site(fi), key='%s-transport' % name, detail=txt(p.value))
+    A.check('KeyError' in A.resolver.raises_of(fi, srv), rule + '.dead-id-raises',
+            '%s transport raises KeyError for a dead id' % name, A.site(fi),
+            key='%s-transport-raise' % name)
+    # session() context manager
+    fi = A.func(fl['server'] + '.session')
+    for cm in fi.nested_classes.values():
+        for mn, m_ in cm.methods.items():
+            if mn in ('__enter__', '__aenter__'):
+                ok = any(match('self.server.get_session(sid)', unawait(n)) is not None
+                         for n in ast.walk(m_.node) if isinstance(n, (ast.Call, ast.Await)))
+                A.check(ok, rule + '.session', '%s session() enters through get_session(sid)'
+                        % name, A.site(fi, m_.node), key='%s-session-enter' % name)
+            if mn in ('__exit__', '__aexit__'):
+                ok = any(match('self.server.save_session(sid, self.session)', unawait(n))
+                         is not None for n in ast.walk(m_.node) if isinstance(n, (ast.Call, ast.Await)))
+                A.check(ok, rule + '.session', '%s session() saves through save_session(sid, ..)'
+                        % name, A.site(fi, m_.node), key='%s-session-exit' % name)
+
+
+def get_socket_rule(A, rule):
+    fi = A.func('base_server.BaseServer._get_socket')
+    srv = A.model.cls('server.Server')
+    ps = [p for p in A.paths(A.enum(), fi, srv) if p.outcome != 'cut']
+    n = {'missing': 0, 'closed': 0, 'live': 0}
+    for p in ps:
+        v = PV(p)
+        ga = set(v.guard_atoms())
+        if any(e.kind == 'handler' for e in v.ev):
+            n['missing'] += 1
+            A.check(p.outcome == 'raise' and p.cls == 'KeyError', rule + '.lookup',
+                    'an unknown sid raises KeyError', A.site(fi), key='get-socket-missing',
+                    detail=v.describe())
+        elif ('self.sockets[sid].closed', True) in ga:
+            n['closed'] += 1
+            dels = [e for e in v.ev if e.kind == 'del' and txt(e.target) == 'self.sockets[sid]']
+            A.check(p.outcome == 'raise' and p.cls == 'KeyError' and dels, rule + '.lookup',
+                    'a closed session is removed from the table and reported as KeyError',
+                    A.site(fi), key='get-socket-closed', detail=v.describe(),
+                    behaviour='a disconnected session stays addressable')
+        elif p.outcome == 'return':
+            n['live'] += 1
+            A.check(txt(p.value) == 'self.sockets[sid]' and
+                    ('self.sockets[sid].closed', False) in ga, rule + '.lookup',
+                    'only a session that is not closed is returned', A.site(fi),
+                    key='get-socket-live', detail=v.describe())
+    for k, c in n.items():
+        A.floor(rule, '_get_socket %s paths' % k, c, 1)
+
+
+def isolation_rules(A, rule):
+    bs = A.func('base_socket.BaseSocket.__init__')
+    ps = [p for p in A.paths(A.enum(), bs, bs.cls) if p.outcome == 'return']
+    for p in ps:
+        v = PV(p)
+        w = {txt(v.ev[i].target): val for i, val in v.writes()}
+        A.check(w.get('self.session') == '{}', rule + '.isolation',
+                'every session starts with its own fresh user-data dict', A.site(bs),
+                key='session-fresh', detail=w.get('self.session'),
+                behaviour='user data of one session is visible through another')
+        A.check(w.get('self.queue') in ('self.server.create_queue()', 'server.create_queue()'),
+                rule + '.isolation',
+                'every session gets its own queue', A.site(bs), key='queue-fresh',
+                detail=w.get('self.queue'),
+                behaviour='messages for one session are delivered to another')
+        for flag in ('connected', 'upgrading', 'upgraded', 'closing', 'closed'):
+            A.check(w.get('self.' + flag) == 'False', rule + '.isolation',
+                    'a new session starts with %s=False' % flag, A.site(bs),
+                    key='flag-init-%s' % flag, detail=w.get('self.' + flag))
+    for cq in ('base_socket.BaseSocket', 'socket.Socket', 'async_socket.AsyncSocket'):
+        ci = A.model.cls(cq)
+        for a in ('session', 'queue', 'closed', 'closing'):
+            A.check(a not in ci.attrs, rule + '.isolation',
+                    '%s has no class-level %s shared by all sessions' % (cq, a),
+                    'src/engineio/%s.py' % ci.module.name, key='class-level-%s' % a)
+    for name in ('threading', 'gevent', 'gevent_uwsgi', 'eventlet'):
+        mi = A.model.modules.get('async_drivers.' + name)
+        if mi is None:
+            continue
+        reg = mi.consts.get('_async')
+        if isinstance(reg, ast.Dict):
+            for k, v_ in zip(reg.keys, reg.values):
+                if isinstance(k, ast.Constant) and k.value == 'queue':
+                    A.check(txt(v_) in ('queue.Queue', 'queue.JoinableQueue'), 'C03.fifo' if
+                            rule.startswith('C03') else rule + '.fifo',
+                            'driver %s uses a FIFO queue class' % name,
+                            'src/engineio/async_drivers/%s.py' % name, key='driver-queue-%s' % name,
+                            detail=txt(v_), behaviour='messages are delivered out of order')
+    cq = A.func('async_server.AsyncServer.create_queue')
+    for p in A.paths(A.enum(), cq, cq.cls):
+        if p.outcome == 'return':
+            A.check(txt(p.value) == 'asyncio.Queue(*args, **kwargs)', rule + '.fifo',
+                    'the asyncio server uses asyncio.Queue (FIFO)', A.site(cq),
+                    key='async-queue', detail=txt(p.value))
+
+
+def disconnect_rules(A, fl, rule, block_rule=None):
+    fi = A.func(fl['server'] + '.disconnect')
+    srv = A.model.cls(fl['server'])
+    name = fl['name']
+    ps = [p for p in A.paths(A.enum(loop_bound=1), fi, srv) if p.outcome != 'cut' and
+          not any(e.kind == 'exc' and e.cls not in (None, 'KeyError') for e in p.events)]
+    S = 'self._get_socket(sid)'
+    n_one = n_all = 0
+    for p in ps:
+        v = PV(p)
+        ga = set(v.guard_atoms())
+        if ('sid is None', False) in ga:
+            if any(e.kind == 'handler' for e in v.ev):
+                A.check(not v.calls('_x.close(___)') and p.outcome == 'return',
+                        rule + '.dead-id-noop', '%s disconnect(sid) of a dead id does nothing'
+                        % name, A.site(fi), key='%s-disconnect-dead' % name, detail=v.describe())
+                continue
+            n_one += 1
+            cl = v.calls(S + '.close(___)')
+            ok = len(cl) == 1
+            if ok:
+                c = unawait(v.ev[cl[0][0]].expr)
+                kw = {k.arg: txt(k.value) for k in c.keywords}
+                ok = kw.get('reason') == 'self.reason.SERVER_DISCONNECT' and not c.args
+            A.check(ok, rule + '.reason', '%s disconnect(sid) closes that session with reason '
+                    'server disconnect' % name, A.site(fi), key='%s-disconnect-reason' % name,
+                    detail=v.describe())
+            if ('sid in self.sockets', True) in ga:
+                dels = [e for e in v.ev if e.kind == 'del' and txt(e.target) == 'self.sockets[sid]']
+                A.check(bool(dels), rule + '.reap', '%s disconnect(sid) removes the session from '
+                        'the table' % name, A.site(fi), key='%s-disconnect-reap' % name,
+                        detail=v.describe())
+        else:
+            n_all += 1
+            w = [(i, val) for i, val in v.writes('self.sockets')]
+            A.check(w and w[-1][1] == '{}', rule + '.reap', '%s disconnect() of all sessions '
+                    'empties the table' % name, A.site(fi), key='%s-disconnect-all-reap' % name,
+                    detail=v.describe())
+            closes = v.calls('_c.close(reason=self.reason.SERVER_DISCONNECT)')
+            its = [txt(v.ev[i].expr) for i in v.kinds('iter') if v.ev[i].pol]
+            if its:
+                A.check(all(t == 'self.sockets.copy().values()' for t in its), rule + '.iteration',
+                        '%s disconnect() iterates a copy of the table' % name, A.site(fi),
+                        key='%s-disconnect-iter' % name, detail=its,
+                        behaviour='RuntimeError: dictionary changed size during iteration')
+    A.floor(rule, '%s disconnect(sid) paths' % name, n_one, 1)
+    A.floor(rule, '%s disconnect() paths' % name, n_all, 1)
+
+
+def service_task_rules(A, fl, rule):
+    fi = A.func(fl['server'] + '._service_task')
+    srv = A.model.cls(fl['server'])
+    name = fl['name']
+
+    def opaque(st, f):
+        s = ast.unparse(st)
+        return isinstance(st, ast.If) and 'len(self.sockets) == 0' in s
+    ps = [p for p in A.paths(A.enum(loop_bound=1, opaque=opaque, max_paths=40000), fi, srv)
+          if p.outcome != 'cut']
+    EL = '_elem(self.sockets.copy().values(), 0)'
+    n_chk = n_del = 0
+    for p in ps:
+        v0 = PV(p)
+        marks = [i for i, e in enumerate(v0.ev) if e.kind == 'iter']
+        for mi, i in enumerate(marks):
+            if not v0.ev[i].pol:
+                continue
+            A.check(txt(v0.ev[i].expr) == 'self.sockets.copy().values()', rule + '.sweep',
+                    '%s: the sweep visits every session of a copy of the table' % name,
+                    A.site(fi, v0.node(i)), key='%s-sweep-iter' % name,
+                    detail=txt(v0.ev[i].expr),
+                    behaviour='sessions are skipped / the table changes under the iteration')
+            hi = marks[mi + 1] if mi + 1 < len(marks) else len(v0.ev)
+            # one visit of one session: events i..hi
+            v = PV(p)
+            loop = v0.ev[i].node.ast
+            lo_l, hi_l = loop.lineno, getattr(loop, 'end_lineno', loop.lineno)
+            v.ev = [e for e in v0.ev[i:hi] if e.depth == 0 and e.node is not None and
+                    e.node.lineno is not None and lo_l <= e.node.lineno <= hi_l]
+            ga = set(v.guard_atoms())
+            first_exc = next((j for j, e in enumerate(v.ev) if e.kind == 'exc'), None)
+            chk = [j for j, _ in v.calls(EL + '.check_ping_timeout()')]
+            dels = [j for j, e in enumerate(v.ev) if e.kind == 'del' and
+                    txt(e.target) == 'self.sockets[%s.sid]' % EL]
+            if (EL + '.closed', True) in ga:
+                n_del += 1
+                A.check(bool(dels) and not chk, rule + '.reap', '%s: the sweep removes a closed '
+                        'session from the table' % name, A.site(fi), key='%s-sweep-reap' % name,
+                        detail=v.describe(50), behaviour='closed sessions are never reaped')
+            elif (EL + '.closed', False) in ga and (EL + '.closing', False) in ga:
+                if first_exc is not None and not chk:
+                    continue
+                n_chk += 1
+                extra = [a for a, pl in ga if a.startswith(EL + '.') and
+                         a not in (EL + '.closed', EL + '.closing')]
+                A.check(bool(chk) and not extra, rule + '.sweep', '%s: the sweep evaluates the '
+                        'heartbeat deadline of every session that is neither closed nor closing'
+                        % name, A.site(fi), key='%s-sweep-check' % name,
+                        detail=(['extra condition: %s' % extra] if extra else []) +
+                        [e.text() for e in v.ev[:30]],
+                        behaviour='a vanished client is never detected: the session stays in the '
+                                  'table forever')
+            # pacing: one full pass per ping_timeout
+            for j, c in v.calls('_e.wait(timeout=_t)') + \
+                    v.calls('asyncio.wait_for(_e.wait(), timeout=_t)'):
+                t = txt(c['t'])
+                A.check(t in ('float(self.ping_timeout) / len(self.sockets)',
+                              'self.ping_timeout / len(self.sockets)'), rule + '.pacing',
+                        '%s: the sweep sleeps ping_timeout / number-of-sessions between visits '
+                        '(one full pass per ping_timeout)' % name, A.site(fi, v.node(j)),
+                        key='%s-sweep-pacing' % name, detail=t,
+                        behaviour='dead peers are detected later than ping_interval + 3 x '
+                                  'ping_timeout')
+    A.floor(rule, '%s sweep check paths' % name, n_chk, 1)
+    A.floor(rule, '%s sweep reap paths' % name, n_del, 1)
+    # started on first connect
+    hc = A.func(fl['server'] + '._handle_connect')
+    ok = any(match('self.start_background_task(self._service_task)', unawait(n)) is not None
+             for n in ast.walk(hc.node) if isinstance(n, ast.Call))
+    A.check(ok, rule + '.sweep-start', '%s: the monitor task is started by the first connect when '
+            'monitoring is on' % name, A.site(hc), key='%s-sweep-start' % name)
+
+
+def generate_id_rules(A, rule):
+    fi = A.func('base_server.BaseServer.generate_id')
+    bs = fi.cls
+    ps = [p for p in A.paths(A.enum(follow_handlers=False), fi, bs) if p.outcome == 'return']
+    A.floor(rule, 'generate_id paths', len(ps), 1)
+    ok_all = len(ps) == 1
+    for p in ps:
+        v = PV(p)
+        site = A.site(fi)
+        rv = unawait(p.value)
+        # encode(random(n) || counter(k, big))
+        m1 = match("base64.b64encode(_rand + self.sequence_number.to_bytes(_k, 'big'))"
+                   ".decode('utf-8').replace('/', '_').replace('+', '-')", rv) or \
+            match("base64.b64encode(_rand + self.sequence_number.to_bytes(_k, 'big'))"
+                  ".decode('utf-8').replace('+', '-').replace('/', '_')", rv) or \
+            match("base64.urlsafe_b64encode(_rand + self.sequence_number.to_bytes(_k, 'big'))"
+                  ".decode('utf-8')", rv)
+        if m1 is None:
+            A.undecided(rule + '.template', 'generate_id matches encode(random(n) || counter(k '
+                        'bytes, big-endian))', site, txt(rv))
+            return
+        rand = unawait(m1['rand'])
+        mr = match('secrets.token_bytes(_n)', rand) or match('os.urandom(_n)', rand)
+        A.check(mr is not None, rule + '.csprng', 'the random part comes straight from the OS '
+                'CSPRNG (secrets.token_bytes / os.urandom) on every call', A.site(fi),
+                key='id-random-source', detail=txt(rand),
+                behaviour='session ids are predictable (non-cryptographic or recycled '
+                          'randomness)')
+        try:
+            n = ast.literal_eval(mr['n']) if mr else None
+            k = ast.literal_eval(m1['k'])
+        except Exception:
+            A.undecided(rule + '.template', 'byte counts are literals', site, txt(rv))
+            return
+        if mr is not None:
+            A.check(isinstance(n, int) and 8 * n >= 96, rule + '.entropy',
+                    'each id embeds at least 96 random bits (8 x %s)' % n, site,
+                    key='id-entropy', detail=str(n), behaviour='ids can be guessed')
+            A.check((n + k) % 3 == 0 and 4 * (n + k) // 3 == 20, rule + '.alphabet',
+                    'n + k = %d bytes encode to exactly 20 characters without padding' % (n + k),
+                    site, key='id-length', detail='%d+%d' % (n, k),
+                    behaviour="ids are not 20 characters / contain '='")
+        # counter update (c + 1) & m with m = 2^(8k) - 1, on every call
+        w = v.writes('self.sequence_number')
+        A.check(len(w) == 1, rule + '.counter', 'the counter advances exactly once per id', site,
+                key='id-counter-once', detail=[x for _, x in w],
+                behaviour='two ids of a window share the counter value')
+        if len(w) == 1:
+            e = unawait(v.ev[w[0][0]].expr)
+            mm = match('(self.sequence_number + 1) & _m', e) or \
+                match('_m & (self.sequence_number + 1)', e)
+            mod = match('(self.sequence_number + 1) % _m', e)
+            mask = None
+            try:
+                if mm is not None:
+                    mask = ('and', ast.literal_eval(mm['m']))
+                elif mod is not None:
+                    mask = ('mod', ast.literal_eval(mod['m']))
+            except Exception:
+                try:
+                    ev_ = AbsEval()
+                    mask = None
+                except Exception:
+                    mask = None
+            if mask is None and mm is not None:
+                # (1 << 24) - 1
+                sh = match('(1 << _b) - 1', mm['m'])
+                if sh is not None:
+                    mask = ('and', (1 << ast.literal_eval(sh['b'])) - 1)
+            if mask is None:
+                A.undecided(rule + '.counter', 'counter update recognised', site, txt(e))
+            else:
+                period = (mask[1] + 1) if mask[0] == 'and' and (mask[1] & (mask[1] + 1)) == 0 \
+                    else (mask[1] if mask[0] == 'mod' else None)
+                A.check(period == 2 ** (8 * k), rule + '.counter',
+                        'the counter cycles through all 2^(8k) = %d values of its %d bytes: any '
+                        '%d consecutive ids differ in the counter field' % (2 ** (8 * k), k,
+                                                                        2 ** (8 * k)),
+                        A.site(fi, v.node(w[0][0])), key='id-counter-period', detail=txt(e),
+                        behaviour='two of 16,777,216 consecutive ids are equal when the random '
+                                  'source repeats (shorter period), or to_bytes overflows')
+            # the id is built from the counter value before the increment
+            gen_i = [i for i, _ in v.calls('base64.b64encode(___)') +
+                     v.calls('base64.urlsafe_b64encode(___)')]
+            A.check(gen_i and gen_i[0] < w[0][0] or 'self.sequence_number' in txt(rv),
+                    rule + '.counter', 'every id embeds the counter', site, key='id-counter-used')
+    v_, owner = A.model.class_attr(bs, 'sequence_number')
+    A.check(v_ is not None and match('0', v_) is not None, rule + '.counter',
+            'the counter starts at 0 as a class attribute and becomes per-instance on first write',
+            'src/engineio/base_server.py', key='id-counter-init', detail=txt(v_))
+    # WHO-MAY: every key stored in self.sockets comes from generate_id()
+    for fl in FLAVOURS:
+        for f in A.model.all_funcs():
+            if f.module.name not in (fl['server'].split('.')[0], 'base_server'):
+                continue
+            for n in own_nodes(f):
+                if isinstance(n, ast.Assign):
+                    for t in n.targets:
+                        if isinstance(t, ast.Subscript) and txt(t.value) == 'self.sockets':
+                            key = txt(t.slice)
+                            defs = A.resolver.local_defs(f).get(key, [])
+                            A.check(len(defs) == 1 and txt(defs[0]) == 'self.generate_id()',
+                                    rule + '.only-generated', 'sessions are stored only under '
+                                    'ids from generate_id() (%s)' % f.qualname, A.site(f, n),
+                                    key='id-foreign-key', detail=[txt(d) for d in defs],
+                                    behaviour='a session id that was not generated by the '
+                                              'server becomes addressable')
+
+
+# ---------------------------------------------------------------------------------------
+# NO-BLOCK: unbounded blocking primitives reachable from the request / API roots
+# ---------------------------------------------------------------------------------------
+def _literal_args(args):
+    out = {}
+    for k, v in (args or {}).items():
+        if isinstance(v, ast.Constant):
+            out[k] = v
+    return out
+
+
+def blocking_calls(A, fi, ctx, args, depth=0, stack=(), memo=None, cut=None):
+    """Set of (description, chain) of unbounded blocking primitives reachable from fi when
+    called with the literal arguments `args` (other parameters symbolic; defaults applied)."""
+    memo = memo if memo is not None else {}
+    key = (fi.qualname, ctx.qualname if ctx else None,
+           tuple(sorted((k, txt(v)) for k, v in (args or {}).items())))
+    if key in memo:
+        return memo[key]
+    memo[key] = set()
+    if depth > 7 or fi.qualname in stack:
+        return set()
+    from sa.paths import bind_args
+    en = A.enum(max_paths=200000, refine_raises=False,
+                opaque=lambda st, f: isinstance(st, ast.If) and
+                'self.http_compression' in ast.unparse(st.test))
+    full = {k: v for k, v in (args or {}).items() if isinstance(v, ast.Constant)}
+    ps = A.paths(en, fi, ctx, args=full)
+    out = set()
+    seen_calls = set()
+    for p in ps:
+        evs = p.events
+        for i, e in enumerate(evs):
+            if e.kind != 'call' or e.depth != 0:
+                continue
+            r = e.callee
+            t = txt(e.expr)
+            sig = (id(e.raw), t)
+            if sig in seen_calls:
+                continue
+            seen_calls.add(sig)
+            c = unawait(e.expr)
+            if r is None:
+                continue
+            if r.kind == 'prim':
+                pr = str(r.prim)
+                kw = {k.arg: k.value for k in c.keywords}
+                blk = None
+                if pr in ('queue.join', '?.join') and not c.args and pr == 'queue.join':
+                    blk = 'queue.join() (waits until every queued packet was taken)'
+                elif pr == 'queue.get':
+                    bounded = 'timeout' in kw or (
+                        'block' in kw and match('False', kw['block']) is not None) or \
+                        (c.args and match('False', c.args[0]) is not None)
+                    wrapped = i + 1 < len(evs) and evs[i + 1].kind == 'call' and \
+                        txt(evs[i + 1].expr).startswith('asyncio.wait_for(' + t)
+                    if not bounded and not wrapped:
+                        blk = 'queue.get() without timeout'
+                elif pr in ('task.join', 'event.wait'):
+                    if 'timeout' not in kw and not c.args:
+                        blk = '%s() without timeout' % pr
+                elif pr == 'extmod:asyncio.wait_for':
+                    tmo = kw.get('timeout') or (c.args[1] if len(c.args) > 1 else None)
+                    if tmo is None or match('None', tmo) is not None:
+                        blk = 'asyncio.wait_for(.., timeout=None)'
+                elif pr == 'extmod:asyncio.wait':
+                    if 'timeout' not in kw:
+                        blk = 'asyncio.wait(..) without timeout'
+                if blk:
+                    out.add((blk, '%s:%s' % (fi.qualname, e.lineno)))
+                continue
+            if r.kind in ('repo', 'class'):
+                for callee, cctx in r.funcs:
+                    if callee is None:
+                        continue
+                    if cut is not None and cut(callee):
+                        continue
+                    cargs = bind_args(callee, c, getattr(r, 'self_expr', None))
+                    sub = blocking_calls(A, callee, cctx, _literal_args(cargs), depth + 1,
+                                         stack + (fi.qualname,), memo, cut)
+                    for blk, chain in sub:
+                        out.add((blk, '%s:%s -> %s' % (fi.qualname, e.lineno, chain)))
+    memo[key] = out
+    return out
+
+
+def no_block_rules(A, fl, rule):
+    name = fl['name']
+    srv = A.model.cls(fl['server'])
+
+    def cut(callee):
+        # the WebSocket upgrade is outside the "non-upgrade request" quantifier
+        return callee.name.startswith('_upgrade_') or callee.name == '_websocket_handler'
+    roots = [('handle_request', {}), ('send', {}), ('send_packet', {}),
+             ('disconnect', {}), ]
+    memo = {}
+    for rname, args in roots:
+        fi = A.func(fl['server'] + '.' + rname)
+        found = blocking_calls(A, fi, srv, args, memo=memo, cut=cut)
+        if not found:
+            A.ok(rule + '.no-block', '%s %s(): no unbounded blocking primitive is reachable'
+                 % (name, rname), A.site(fi))
+        # one finding per root and primitive kind
+        kinds = {}
+        for blk, chain in sorted(found):
+            kinds.setdefault(blk.split(' (')[0], []).append(chain)
+        for blk, chains in kinds.items():
+            A.violated(rule + '.no-block', '%s %s() returns in bounded time: it cannot reach %s'
+                       % (name, rname, blk), A.site(fi),
+                       key='%s-%s-blocks:%s' % (name, rname, blk.split('(')[0]),
+                       detail=sorted(chains)[:6],
+                       behaviour='the call (or the request worker) stays blocked until a client '
+                                 'that may be gone reads its queue')
+    A.sample({'rule': rule + '.no-block', 'flavour': name,
+              'roots': [r for r, _ in roots], 'summaries': len(memo)})
+
+
+def post_catch_all_rule(A, fl, rule):
+    fi = A.func(fl['server'] + '.handle_request')
+    found = False
+    for n in ast.walk(fi.node):
+        if isinstance(n, ast.Try) and any(
+                isinstance(c, ast.Call) and isinstance(c.func, ast.Attribute) and
+                c.func.attr == 'handle_post_request' for st in n.body for c in ast.walk(st)):
+            found = True
+            ok = any(h.type is None or (isinstance(h.type, ast.Name) and
+                                        h.type.id in ('BaseException', 'Exception'))
+                     for h in n.handlers)
+            A.check(ok, rule + '.post-contained', '%s: whatever processing a POST body raises '
+                    '(bad form encoding, deep JSON, handler dispatch) is contained in the request'
+                    % fl['name'], A.site(fi, n), key='%s-post-catch-all' % fl['name'],
+                    behaviour='a malformed body (e.g. "d=" without value, deeply nested JSON) '
+                              'makes handle_request raise: no response')
+    if not found:
+        raise AnalysisError('%s: try around handle_post_request not found in %s'
+                            % (rule, fi.qualname))
+
+
+def asgi_rules(A, rule, buffering_rule=None):
+    mi = A.model.module('async_drivers.asgi')
+    mr = A.func('async_drivers.asgi.make_response')
+    ps = [p for p in A.paths(A.enum(follow_handlers=False), mr) if p.outcome != 'cut']
+    A.floor(rule, 'asgi.make_response paths', len(ps), 4)
+    for p in ps:
+        v = PV(p)
+        sends = v.calls("environ['asgi.send'](_ev)")
+        types = []
+        for i, c in sends:
+            d = unawait(c['ev'])
+            t = None
+            if isinstance(d, ast.Dict):
+                for k, val in zip(d.keys, d.values):
+                    if isinstance(k, ast.Constant) and k.value == 'type' and \
+                            isinstance(val, ast.Constant):
+                        t = val.value
+            types.append(t)
+        ga = set(v.guard_atoms())
+        if ("environ['asgi.scope']['type'] == 'websocket'", True) in ga:
+            ok = len(types) == 1 and types[0] in ('websocket.accept', 'websocket.close')
+            if ok and types[0] == 'websocket.accept':
+                ok = ("status.startswith('200 ')", True) in ga
+            if ok and types[0] == 'websocket.close':
+                ok = ("status.startswith('200 ')", False) in ga
+            A.check(ok, rule + '.asgi-websocket', 'ASGI: on a websocket scope the response is '
+                    'exactly one websocket.accept (status 200) or one websocket.close',
+                    A.site(mr), key='asgi-ws-response', detail=[types] + v.describe(),
+                    behaviour='http.response.* events are sent on a websocket scope (illegal)')
+        else:
+            A.check(types == ['http.response.start', 'http.response.body'],
+                    rule + '.asgi-http', 'ASGI: an http response is exactly http.response.start '
+                    'followed by http.response.body', A.site(mr), key='asgi-http-response',
+                    detail=[types] + v.describe(),
+                    behaviour='malformed ASGI response sequence')
+            st = [unawait(c['ev']) for i, c in sends[:1]]
+            if st and isinstance(st[0], ast.Dict):
+                d = {k.value: val for k, val in zip(st[0].keys, st[0].values)
+                     if isinstance(k, ast.Constant)}
+                A.check(txt(d.get('status')) == "int(status.split(' ')[0])", rule + '.asgi-http',
+                        'ASGI: the numeric status is taken from the status line', A.site(mr),
+                        key='asgi-http-status', detail=txt(d.get('status')))
+    tr = A.func('async_drivers.asgi.translate_request')
+    ps = [p for p in A.paths(A.enum(follow_handlers=False, loop_bound=1), tr)
+          if p.outcome == 'return']
+    A.floor(rule, 'asgi.translate_request returning paths', len(ps), 3)
+    seen_empty = False
+    for p in ps:
+        v = PV(p)
+        rv = unawait(p.value)
+        has = False
+        if isinstance(rv, ast.Dict):
+            has = any(isinstance(k, ast.Constant) and k.value == 'REQUEST_METHOD' for k in rv.keys)
+        elif isinstance(rv, ast.Name):
+            has = True      # the environ dict built above (kept symbolic)
+        if not has and not seen_empty:
+            seen_empty = True
+            A.violated(rule + '.environ-total', 'ASGI: every environ handed to handle_request has '
+                       'the keys it subscripts unconditionally (REQUEST_METHOD)', A.site(tr),
+                       key='asgi-translate-empty-environ', detail=['returns ' + txt(rv)] +
+                       v.describe(12),
+                       behaviour="first ASGI event 'http.disconnect' -> KeyError('REQUEST_METHOD') "
+                                 'escapes handle_request')
+        elif has:
+            A.ok(rule + '.environ-total', 'ASGI: translate_request returns a full environ',
+                 A.site(tr))
+    # body accumulation before the size gate (C14.5)
+    if buffering_rule:
+        acc = [n for n in ast.walk(tr.node) if isinstance(n, ast.AugAssign) and
+               isinstance(n.target, ast.Name) and 'body' in ast.unparse(n.value)]
+        loop = [n for n in ast.walk(tr.node) if isinstance(n, ast.While) and
+                'more_body' in ast.unparse(n.test)]
+        bounded = any('max_http_buffer_size' in ast.unparse(n) or 'CONTENT_LENGTH' in ast.unparse(n)
+                      for n in loop)
+        if acc and loop and not bounded:
+            A.violated(buffering_rule + '.driver-buffering',
+                       'ASGI: the request body is not accumulated without bound before the size '
+                       'gate of handle_post_request', A.site(tr, loop[0]),
+                       key='asgi-translate-unbounded-body',
+                       detail='all http.request chunks are concatenated regardless of '
+                              'Content-Length and max_http_buffer_size',
+                       behaviour='an oversize (or endless) body is buffered whole in memory '
+                                 'before the limit is applied')
+        else:
+            A.ok(buffering_rule + '.driver-buffering', 'ASGI body accumulation is bounded',
+                 A.site(tr))
+
+
+def upgrade_configured_rule(A, fl, rule):
+    """C06.4 / F5: the protocol a GET is upgraded to must be one of the configured
+    transports on every way into _upgrade_<proto>."""
+    name = fl['name']
+    fi = A.func(fl['socket'] + '.handle_get_request')
+    sock = A.model.cls(fl['socket'])
+    tr_t = "environ.get('HTTP_UPGRADE', '').lower()"
+    ps = [p for p in A.paths(A.enum(), fi, sock) if p.outcome != 'cut']
+    sock_guard = False
+    n = 0
+    for p in ps:
+        v = PV(p)
+        if any(e.kind == 'call' and txt(e.expr).startswith("getattr(self, '_upgrade_' + ")
+               for e in v.ev):
+            n += 1
+            ga = set(v.guard_atoms())
+            if (tr_t + ' in self.server.transports', True) in ga:
+                sock_guard = True
+    A.floor(rule, '%s upgrade paths in handle_get_request' % name, n, 1)
+    hr, srv, rps = request_paths(A, fl)
+    srv_guard = True
+    for p in rps:
+        v = PV(p, depth=0)
+        c = v.calls(SINKS['get'], depth=0)
+        if not c:
+            continue
+        gb = set(atom(e.expr, e.pol) for e in v.ev[:c[0][0]] if e.kind == 'guard')
+        if ('transport == upgrade_header', True) in gb and \
+                ('self.transport(sid) == transport', False) in gb:
+            continue    # the header names the query transport, which was tested
+        if not (('upgrade_header in self.transports', True) in gb or
+                ('upgrade_header is None', True) in gb):
+            srv_guard = False
+    A.check(sock_guard or srv_guard, rule + '.configured-transports',
+            '%s: a polling GET is upgraded only to a protocol the server was configured to allow '
+            '(the Upgrade header value is tested against transports)' % name, A.site(fi),
+            key='%s-upgrade-unconfigured-transport' % name,
+            detail="GET transport=polling&sid=<live> with 'Upgrade: websocket' reaches "
+                   "_upgrade_websocket although 'websocket' may not be in transports",
+            behaviour="a transports=['polling'] server lets a client switch the session to "
+                      'WebSocket')
+
+
+def upgrade_header_consistency_rule(A, fl, rule):
+    """F18: the admission chain accepts 'transport == Upgrade header' where the socket needs
+    'Connection: upgrade' as well."""
+    name = fl['name']
+    fi = A.func(fl['socket'] + '.handle_get_request')
+    sock = A.model.cls(fl['socket'])
+    keys_sock = set()
+    for p in A.paths(A.enum(), fi, sock):
+        v = PV(p)
+        if any(e.kind == 'call' and txt(e.expr).startswith("getattr(self, '_upgrade_' + ")
+               for e in v.ev):
+            for a, pl in v.guard_atoms():
+                for k in ('HTTP_CONNECTION', 'HTTP_UPGRADE'):
+                    if k in a:
+                        keys_sock.add(k)
+    hr = A.func(fl['server'] + '.handle_request')
+    keys_srv = set()
+    for d in REQ_DEFS['upgrade_header']:
+        for k in ('HTTP_CONNECTION', 'HTTP_UPGRADE'):
+            if k in d:
+                keys_srv.add(k)
+    conn_used = 'HTTP_CONNECTION' in ast.unparse(hr.node)
+    A.check(keys_sock <= keys_srv or conn_used, rule + '.upgrade-consistency',
+            '%s: a GET whose query transport differs from the session\'s is admitted as an '
+            'upgrade only on the same header evidence the session uses to start one '
+            '(Connection: upgrade and Upgrade)' % name, A.site(hr),
+            key='%s-upgrade-header-only' % name,
+            detail='admission tests %s, the session tests %s' % (sorted(keys_srv),
+                                                                 sorted(keys_sock)),
+            behaviour="GET transport=websocket&sid=<polling session> with 'Upgrade: websocket' "
+                      "but without 'Connection: upgrade' is served as a long-poll")
